@@ -114,8 +114,10 @@ def convert(infile, out_file_name, **options):  # type: (str, str, **str) -> Non
                         #        logger.error("ID Conflict, could not copy/merge frame " + frame.name + "  %xh " % frame.id + database)
                     for mergeOpt in merge_string[1:]:
                         if mergeOpt.split('=')[0] == "ecu":
+                            # the clean-up of ECUs without direct communication belongs to the extraction of a sub-matrix
+                            # (--ecus); here the target is the main matrix, whose own ECUs must stay
                             canmatrix.copy.copy_ecu_with_frames(
-                                mergeOpt.split('=')[1], db_temp_list[dbTemp], db)
+                                mergeOpt.split('=')[1], db_temp_list[dbTemp], db, direct_ecu_only=False)
                         if mergeOpt.split('=')[0] == "frame":
                             frame_to_copy = db_temp_list[name].frame_by_name(mergeOpt.split('=')[1])
                             canmatrix.copy.copy_frame(frame_to_copy.arbitration_id, db_temp_list[dbTemp], db)
